@@ -373,6 +373,27 @@ func c05Emit(o *out, db *formsDB, cases, panics []*c05Case) map[string]any {
 			count["asm_rejected"]++
 		}
 		count["stream_"+strings.SplitN(c.stream, ":", 2)[0]]++
+		if f := c05Features(c); f != "-" {
+			for _, t := range strings.Split(f, "+") {
+				count["feat_"+t]++
+			}
+		}
+		if c.form != nil {
+			for _, t := range c.form.explicitTypes() {
+				count["type_"+t]++
+			}
+			if len(c.form.ISAs) > 0 {
+				count["isa_"+c.form.ISAs[0]]++
+			} else {
+				count["isa_base"]++
+			}
+		}
+		for _, s := range c.sfx {
+			count["sfx_"+s]++
+		}
+		if c.xmem > 0 {
+			count["x86asm_width_available"]++
+		}
 	}
 	for k, v := range count {
 		st[k] = v
